@@ -207,11 +207,87 @@ def verify_function(qualname: str, self_class: Optional[str] = None, timeout_ms=
         res.message = f'{type(e).__name__}: {e}\n{traceback.format_exc()[-1500:]}'
     if res.status == 'ok':
         t1 = time.time()
-        for ob in res.obligations:
-            discharge(ob, timeout_ms)
+        discharge_all(res, qualname, self_class, timeout_ms)
         res.solver_time = time.time() - t1
     res.time = time.time() - t0
     return res
+
+
+def _replay(qualname, self_class, res, ob):
+    if ob.status == 'refuted' and ob.model is not None and ob.kind not in ('inv', 'pre', 'lemma') and qualname:
+        try:
+            from .runner import replay_model
+            ob.replay = replay_model(qualname, self_class, res, ob)
+        except Exception as e:
+            ob.replay = {'confirmed': False, 'error': f'{type(e).__name__}: {e}'}
+
+
+def discharge_all(res, qualname, self_class, timeout_ms, workers=None):
+    """discharge the obligations of one function; in forked children when there are many (the z3
+    context is inherited by fork; results - status, back end, replay of counter-models - come back as data)"""
+    import multiprocessing as mp
+    import os
+    obs = res.obligations
+    for ob in obs:
+        ob.replay = None
+        ob.ladder = None
+    workers = workers or int(os.environ.get('VERIF_INNER_JOBS', '8'))
+    if len(obs) < 12 or workers <= 1 or os.environ.get('VERIF_SERIAL'):
+        for ob in obs:
+            discharge(ob, timeout_ms)
+            _replay(qualname, self_class, res, ob)
+        return
+    ctx = mp.get_context('fork')
+    chunks = [list(range(i, len(obs), workers)) for i in range(workers)]
+    procs = []
+    for idxs in chunks:
+        if not idxs:
+            continue
+        parent, child = ctx.Pipe(duplex=False)
+        pid = os.fork()
+        if pid == 0:
+            try:
+                out = []
+                for i in idxs:
+                    ob = obs[i]
+                    try:
+                        discharge(ob, timeout_ms)
+                        _replay(qualname, self_class, res, ob)
+                        out.append((i, ob.status, ob.backend, ob.time, ob.ladder, ob.replay,
+                                    str(ob.model)[:2000] if ob.model is not None else None))
+                    except Exception as e:
+                        out.append((i, 'unknown', f'error {type(e).__name__}: {e}', 0.0, None, None, None))
+                child.send(out)
+                child.close()
+            finally:
+                os._exit(0)
+        child.close()
+        procs.append((pid, parent, idxs))
+    for pid, parent, idxs in procs:
+        try:
+            if parent.poll(max(60, len(idxs) * (timeout_ms / 1000.0) * 3 + 60)):
+                out = parent.recv()
+            else:
+                out = []
+        except EOFError:
+            out = []
+        try:
+            os.kill(pid, 9)
+        except OSError:
+            pass
+        try:
+            os.waitpid(pid, 0)
+        except OSError:
+            pass
+        got = set()
+        for i, status, backend, tm, ladder, replay, model in out:
+            ob = obs[i]
+            ob.status, ob.backend, ob.time, ob.ladder, ob.replay = status, backend, tm, ladder, replay
+            ob.model_str = model
+            got.add(i)
+        for i in idxs:
+            if i not in got:
+                obs[i].status, obs[i].backend = 'unknown', 'worker lost'
 
 
 def check_pre_sat(con, names, ptys, consts, ct, self_class, is_ctor):
